@@ -142,17 +142,20 @@ def intScan : Str → Nat → List Nat → Option (List Nat)
     else if c = 95 then (if prev = 1 then intScan r 2 acc else none)
     else none
 
+/-- optional leading sign: (is negative, rest) -/
+def splitSign (s : Str) : Bool × Str :=
+  match s with
+  | 45 :: r => (true, r)
+  | 43 :: r => (false, r)
+  | _ => (false, s)
+
 /-- `int(token)`; `none` = `ValueError`. More than 4300 digits is a `ValueError` too (`sys.int_max_str_digits`). -/
 def parseInt (s : Str) : Option Int :=
-  let (neg, body) := match s with
-    | 45 :: r => (true, r)
-    | 43 :: r => (false, r)
-    | _ => (false, s)
-  match intScan body 0 [] with
+  match intScan (splitSign s).2 0 [] with
   | none => none
   | some ds => if ds.length > 4300 then none else
     let v : Int := (ofDigits ds : Nat)
-    some (if neg then -v else v)
+    some (if (splitSign s).1 then -v else v)
 
 /-- A Python float that `float(token)` denotes, kept as the exact decimal `(-1)^neg · mant · 10^exp`;
 the rounding to binary64 (`strtod`, correctly rounded) is applied by the harness when comparing. -/
@@ -182,39 +185,40 @@ def parseExp (r : Str) : Option Int :=
   | [] => some 0
   | c :: r1 =>
     if c = 101 ∨ c = 69 then
-      let (neg, r2) := match r1 with
-        | 45 :: t => (true, t)
-        | 43 :: t => (false, t)
-        | _ => (false, r1)
+      let r2 := (splitSign r1).2
       if r2 = [] then none
       else if r2.all isDigit then
         let v : Int := (ofDigits (r2.map digitVal) : Nat)
-        some (if neg then -v else v)
+        some (if (splitSign r1).1 then -v else v)
       else none
     else none
+
+/-- `digits [. digits] [exponent]` with at least one digit in the mantissa -/
+def parseDecBody (neg : Bool) (body : Str) : Option PyFloat :=
+  let ip := body.takeWhile isDigit
+  let r1 := body.dropWhile isDigit
+  let fp := match r1 with
+    | 46 :: t => t.takeWhile isDigit
+    | _ => []
+  let r2 := match r1 with
+    | 46 :: t => t.dropWhile isDigit
+    | _ => r1
+  if ip = [] ∧ fp = [] then none else
+  match parseExp r2 with
+  | none => none
+  | some e => some (.fin neg (ofDigits ((ip ++ fp).map digitVal)) (e - (fp.length : Int)))
 
 /-- `float(token)`; `none` = `ValueError`. -/
 def parseFloat (s0 : Str) : Option PyFloat :=
   match (if s0.contains 95 then dropUnderscores s0 0 [] else some s0) with
   | none => none
   | some s =>
-  let (neg, body) := match s with
-    | 45 :: r => (true, r)
-    | 43 :: r => (false, r)
-    | _ => (false, s)
+  let neg := (splitSign s).1
+  let body := (splitSign s).2
   let lb := body.map lower
   if lb = sInf ∨ lb = sInfinity then some (.inf neg)
   else if lb = sNan then some .nan
-  else
-    let ip := body.takeWhile isDigit
-    let r1 := body.dropWhile isDigit
-    let (fp, r2) := match r1 with
-      | 46 :: t => (t.takeWhile isDigit, t.dropWhile isDigit)
-      | _ => ([], r1)
-    if ip = [] ∧ fp = [] then none else
-    match parseExp r2 with
-    | none => none
-    | some e => some (.fin neg (ofDigits ((ip ++ fp).map digitVal)) (e - (fp.length : Int)))
+  else parseDecBody neg body
 
 /-! ### dates and times -/
 
